@@ -14,8 +14,7 @@ MODELLED = ("storage/memory/storage.go (ReferenceStorage incl. CheckAndSetRefere
             "(possibly empty) and packed-refs lines (possibly malformed); objects as a set (loose + packed), index/config/shallow/"
             "reflog files as values (Model/StorageAPI.v); spec: the abstract store (Spec/AStore.v st_step). One filesystem model "
             "for every Options value and object format. Not modelled: Module storers, CountLooseRefs, alternates, HEAD "
-            "special-casing in Refs(), directory/file conflicts between reference names, CheckAndSetReference with "
-            "old.Name() != ref.Name(), concurrent access, I/O errors")
+            "special-casing in Refs(), directory/file conflicts between reference names, concurrent access, I/O errors")
 TRUSTED = [
     "C-impl: every case is run on storage/memory and on storage/filesystem (memfs / osfs) under several option sets by harness/cmd/c17 and compared with Model/StorageAPI.c17_run",
     "oracle: Model/StorageAPI.c17_spec_run (the abstract store) evaluated in Coq on every case; every backend must answer every call, and the final snapshot, as the abstract store does",
@@ -198,7 +197,7 @@ class Main(Suite):
 
     def targeted(self, rng):
         n, m = rng.sample(range(NN), 2)
-        t = rng.randrange(9)
+        t = rng.randrange(10)
         v, w = ["h", rng.randrange(NO - 1)], ["h", rng.randrange(NO - 1)]
         if t == 0:      # CAS on an absent reference
             return [["cas", n, v, n, w], ["getref", n], ["iterrefs"], ["setref", n, w], ["iterrefs"]]
@@ -219,6 +218,9 @@ class Main(Suite):
         if t == 6:      # index / config / shallow rewrites with a reopen in between
             return [["setidx", 2], ["getidx"], ["setidx", 0], ["getidx"], ["setcfg", 3], ["reopen"], ["getcfg"], ["getidx"],
                     ["setshallow", [1, 2]], ["getshallow"], ["setshallow", []], ["getshallow"], ["reopen"], ["getshallow"]]
+        if t == 9:      # CAS whose old reference has another name than the new one
+            return [["setref", n, v], ["setref", m, w], ["cas", n, ["h", (v[1] + 1) % (NO - 1)], m, w], ["getref", n],
+                    ["cas", n, ["h", (v[1] + 2) % (NO - 1)], m, v], ["getref", n], ["iterrefs"]]
         if t == 7:      # non-storable object type
             return [["setobj", NO - 1], ["hasobj", NO - 1], ["iterobjs", 0], ["getobj", 0, NO - 1], ["sizeobj", NO - 1]]
         # symbolic values and CAS on them
@@ -298,9 +300,9 @@ class Main(Suite):
             return None
         idx, label, g, w = d
         ops = case["ops"]
+        if label == "cas" and ops[idx][3] != ops[idx][1]:
+            return "cas-compares-the-new-name-not-old-name"
         if be.startswith("memory"):
-            if label == "cas" and g == ["ok"] and w == ["err", "ref_not_found"]:
-                return "memory-cas-on-absent-reference-succeeds"
             return None
         # filesystem
         err = g if isinstance(g, list) and g[:1] == ["err"] else (g[0] if label == "snapshot" and isinstance(g, list) and isinstance(g[0], list) and g[0][:1] == ["err"] else None)
